@@ -106,12 +106,13 @@ AlterW(t) ==
   /\ UNCHANGED <<crashes, scans, nscans>>
 
 \* A scan that is held after its j-th row while the pipeline moves on (C18):
-\* ScanBegin is rowStore.iterate's snapshot, ScanEnd the delivery of the rest.
-ScanBegin(t, m, j) ==
+\* ScanBegin is rowStore.iterate's snapshot (with hd the scan is held right after
+\* it, before it registers itself and opens the file), ScanEnd the delivery of the rest.
+ScanBegin(t, m, j, hd) ==
   /\ up /\ opened = Tables /\ t \notin scans /\ nscans < MaxScans
   /\ View(t) # EmptyBag
   /\ scans' = scans \cup {t} /\ nscans' = nscans + 1
-  /\ H([a |-> "ScanBegin", t |-> t, mem |-> m, j |-> j])
+  /\ H([a |-> "ScanBegin", t |-> t, mem |-> m, j |-> j, hold |-> hd])
   /\ UNCHANGED <<vars, crashes, nalt>>
 ScanEnd(t) ==
   /\ t \in scans
@@ -121,7 +122,7 @@ ScanEnd(t) ==
 
 SimNextAll == \/ SimNext
               \/ \E t \in Tables : AlterBoth(t) \/ AlterW(t) \/ ScanEnd(t)
-              \/ \E t \in Tables, m \in BOOLEAN, j \in 0..2 : ScanBegin(t, m, j)
+              \/ \E t \in Tables, m \in BOOLEAN, j \in 0..2, hd \in BOOLEAN : ScanBegin(t, m, j, hd)
 
 SimSpec == SimInit /\ [][SimNextAll]_svars
 
